@@ -62,6 +62,7 @@ def run(ck):
     hs = [H('c12_insertions', cap=900, meaning='tables of inserted leap seconds only: l2u = declarative spec, monotone, round trip, Galois connection with a transition count, inserted second shares the next UTC value'),
           H('c12_with_deletions', cap=900, meaning='same with at least one record that lowers the correction (negative leap second)'),
           H('c12_lookup_switch', cap=1200, meaning='find_local_time_type switches type exactly at the UTC instant the transition count denotes (<=2 leap records)')]
+    hs.append(H('c12_binary_search_leap_seconds_every_length_upto_64', cap=600, playback=True, meaning='the binary-search helper used by unix_leap_time_to_unix_time on a fixed increasing leap table of every length 0..64 (27 real records today) and every key: Ok(index) / Err(insertion point)'))
     if not quick:
         hs.append(H('c12_four_records', cap=7200, required=False, playback=True, meaning='tables of <= 4 records: l2u = spec, monotone, round trip, Galois connection'))
     B.run(hs)
@@ -74,7 +75,7 @@ def run(ck):
             n = m.get('n', 0)
             ls = [(m.get(f't{i}', 0), m.get(f'c{i}', 0)) for i in range(min(n, 3))]
             pts = sorted({p + d for (t, c) in ls for p in (t, t - c) for d in (-2, -1, 0, 1, 2)})
-            r = native_check(nat, ls, pts) if ls and h.name != 'c12_lookup_switch' else None
+            r = native_check(nat, ls, pts) if ls and h.name != 'c12_lookup_switch' and 'binary_search' not in h.name else None
             if r:
                 ck.violation(f'{h.name}: {r[0]}', r[1])
                 continue
